@@ -195,6 +195,17 @@ func C08(cfg Cfg) int {
 							roots[i] = cs[i].SigningRoot()
 							descs[i] = fmt.Sprintf("generic key%d dom=%x", cs[i].Key.Index, cs[i].Data.Domain[:4])
 						}
+						if via == ViaService && n > 1 && r.Intn(2) == 0 {
+							// A caller of the Go interface may hold all its roots in one buffer: each entry's data is then a
+							// slice with spare capacity that runs into the next entry's bytes.
+							buf := make([]byte, 0, 32*n)
+							for i := range cs {
+								if !markers[i] && len(cs[i].Data.Data) == 32 {
+									buf = append(buf, cs[i].Data.Data...)
+									cs[i].Data.Data = buf[len(buf)-32:]
+								}
+							}
+						}
 						res, sigs = env.SignGens(via, cs)
 					}
 					run.Eval(n)
